@@ -79,6 +79,452 @@ def catalogue(ctx, rng, cd):
     return cat
 
 
+# ---------------------------------------------------------------------------------------------------------------
+# round 2: legacy frames (v0.5 / v0.6 / v0.7, library built with ZSTD_LEGACY_SUPPORT=5), more decoding entry points,
+# multi-frame inputs whose LAST frame is damaged, decoder histories, and the compression side (every way of feeding
+# and ending a frame under a pledged source size)
+
+KEY_V07_CK = "C09-legacy-v07-oneshot-ignores-checksum"
+KEY_LEGACY_FCS = "C09-legacy-stream-ignores-content-size"
+KEY_STABLEIN = "C09-stablein-deferred-pledge-overridden"
+LEGACY_PATHS = ["oneshot", "dctx", "stream:0:0", "stream:7:3", "stream:0:1", "stableout:0"]   # first segment >= 4 bytes: the legacy
+# detection of ZSTD_decompressStream looks at the current input only (a valid legacy frame fed 1 byte first is refused: not C09)
+
+
+def mk_v07(blocks, declared, direct, checksum=None, fcsid=None):
+    """v0.7 frame of raw blocks. declared: content size written in the header (None: no field); checksum: 22-bit value or None"""
+    out = bytearray(struct.pack("<I", 0xFD2FB527))
+    if declared is None:
+        fcsid = 0
+    elif fcsid is None:
+        fcsid = 0 if (direct and declared < 256) else (1 if 256 <= declared < 65536 + 256 else 2)
+    out.append((fcsid << 6) | ((1 if direct else 0) << 5) | ((1 if checksum is not None else 0) << 2))
+    if not direct:
+        out.append(0)
+    if fcsid == 0:
+        if direct:
+            out.append(declared)
+    elif fcsid == 1:
+        out += (declared - 256).to_bytes(2, "little")
+    elif fcsid == 2:
+        out += declared.to_bytes(4, "little")
+    else:
+        out += declared.to_bytes(8, "little")
+    for b in blocks:
+        out += bytes([(1 << 6) | (len(b) >> 16), (len(b) >> 8) & 255, len(b) & 255]) + b
+    ck = checksum or 0
+    out += bytes([(3 << 6) | ((ck >> 16) & 0x3F), (ck >> 8) & 255, ck & 255])
+    return bytes(out)
+
+
+def mk_v06(blocks, declared, fcsid=None):
+    out = bytearray(struct.pack("<I", 0xFD2FB526))
+    if declared is None:
+        fcsid = 0
+    elif fcsid is None:
+        fcsid = 1 if declared < 256 else (2 if declared < 65536 + 256 else 3)
+    out.append(fcsid << 6)
+    if fcsid == 1:
+        out.append(declared)
+    elif fcsid == 2:
+        out += (declared - 256).to_bytes(2, "little")
+    elif fcsid == 3:
+        out += declared.to_bytes(8, "little")
+    for b in blocks:
+        out += bytes([(1 << 6) | (len(b) >> 16), (len(b) >> 8) & 255, len(b) & 255]) + b
+    out += bytes([3 << 6, 0, 0])
+    return bytes(out)
+
+
+def legacy_samples():
+    """the v0.5 / v0.6 / v0.7 frames of /repo/tests/legacy.c (compressed blocks) -> [(name, frame, content)]"""
+    import os
+    import re
+    try:
+        src = open(os.path.join(core.REPO, "tests", "legacy.c")).read()
+    except OSError:
+        return []
+    m = re.search(r'const char\* const COMPRESSED =\s*((?:\s*"(?:\\x[0-9A-Fa-f]{2})+"\s*)+);', src)
+    e = re.search(r'const char\* const EXPECTED =\s*((?:\s*"(?:[^"\\]|\\.)*"\s*)+);', src)
+    if not m or not e:
+        return []
+    data = bytes(int(h, 16) for h in re.findall(r"\\x([0-9A-Fa-f]{2})", m.group(1)))
+    idx = [i for i in range(len(data) - 3) if data[i + 1:i + 4] == b"\xb5\x2f\xfd" and data[i] in (0x24, 0x25, 0x26, 0x27, 0x28)]
+    frames = [data[a:b] for a, b in zip(idx, idx[1:] + [len(data)])]
+    text = "".join(re.findall(r'"((?:[^"\\]|\\.)*)"', e.group(1))).replace("\\n", "\n").encode("utf-8")
+    if len(text) % 5:
+        return []
+    one = text[: len(text) // 5]
+    return [("legacy.c v0.%d" % (f[0] - 0x20), f, one) for f in frames if f[0] in (0x25, 0x26, 0x27)]
+
+
+def round2(ctx, rng, cd, cat):
+    from .. import streamtie as st
+    lines, meta = [], {}
+    repeats = {}
+
+    def keyed(rep, what, key):
+        """one replay file per finding key (the first, i.e. smallest, case); the others are counted in the evidence notes"""
+        if key is not None:
+            repeats[key] = repeats.get(key, 0) + 1
+            if repeats[key] > 1:
+                return
+        ctx.violation(rep, key=key, what=what)
+
+    def add(cid, data, x, what, layout, paths, flags="-", key=None, cap=None):
+        meta[cid] = (data, x, what, layout, key)
+        c = cap if cap is not None else (len(x) + 64 if x is not None else 4096)
+        for pth in paths:
+            lines.append("D %s|%s %s %s - %s %d" % (cid, pth, pth, flags, codec.hx(data), c))
+
+    # ---- (a) legacy frames ----
+    leg = []
+    for j in range(6 if ctx.quick else 30):
+        nb = rng.choice([1, 1, 2, 3])
+        blocks = [rng.randbytes(rng.choice([1, 5, 12, 40, 300])) for _ in range(nb)]
+        x = b"".join(blocks)
+        if j % 2 == 0:
+            direct = rng.random() < 0.5 and len(x) < 256
+            withck = rng.random() < 0.7
+            ck = (st.xxh64(x) >> 11) & 0x3FFFFF if withck else None
+            fcsid = rng.choice([None, None, 2, 3])
+            leg.append(("v0.7 raw nb=%d direct=%d ck=%d fcsid=%s" % (nb, direct, withck, fcsid), 7, blocks, x, direct, ck, fcsid))
+        else:
+            fcsid = rng.choice([None, None, 3])
+            leg.append(("v0.6 raw nb=%d fcsid=%s" % (nb, fcsid), 6, blocks, x, False, None, fcsid))
+    for li, (name, ver, blocks, x, direct, ck, fcsid) in enumerate(leg):
+        mk = (lambda decl, c=ck: mk_v07(blocks, decl, direct, c, fcsid)) if ver == 7 else (lambda decl, c=None: mk_v06(blocks, decl, fcsid))
+        f = mk(len(x))
+        add("G%d.full" % li, f, x, "complete", name, LEGACY_PATHS)
+        for k in range(1, len(f)):
+            add("G%d.cut%d" % (li, k), f[:k], None, "prefix", name, LEGACY_PATHS if k >= 4 else ["oneshot", "dctx", "stream:0:0"])
+        for g in (b"\x00", b"ab", b"\x28\xb5\x2f", f[:4], f[:7]):
+            add("G%d.tail%s" % (li, g.hex()), f + g, None, "garbage", name, ["oneshot", "dctx"])
+        # declared-size lies (a declared 0 means "unknown" in the legacy decoders: not a lie they can see)
+        for decl in sorted({len(x) - 1, len(x) + 1, len(x) + len(blocks[-1]), 2 * len(x), len(x) + 256, 255, 256}):
+            if decl <= 0 or decl == len(x):
+                continue
+            try:
+                d = mk(decl)
+            except (OverflowError, ValueError):
+                continue
+            add("G%d.fcs%d" % (li, decl), d, x, "fcslie", name, LEGACY_PATHS, key=KEY_LEGACY_FCS, cap=max(len(x), decl) + 64)
+        if ver == 7 and ck is not None:
+            for bit in range(22):
+                add("G%d.ck%d" % (li, bit), mk(len(x), ck ^ (1 << bit)), x, "ckflip", name, LEGACY_PATHS, key=KEY_V07_CK)
+            for j in range(10):
+                d = bytearray(f)
+                pos = rng.randrange(len(f) - len(x) - 3 * len(blocks) + 0, len(f) - 3)   # somewhere behind the header
+                d[pos] ^= 1 << rng.randrange(8)
+                add("G%d.flip%d" % (li, j), bytes(d), x, "flip", name, LEGACY_PATHS, key=KEY_V07_CK)
+    for li, (name, f, x) in enumerate(legacy_samples()):
+        add("H%d.full" % li, f, x, "complete", name, LEGACY_PATHS)
+        for k in range(1, len(f)):
+            add("H%d.cut%d" % (li, k), f[:k], None, "prefix", name, LEGACY_PATHS if k >= 4 else ["oneshot", "stream:0:0"])
+        for g in (b"\x00", b"\x28\xb5\x2f\xfd", f[:5]):
+            add("H%d.tail%s" % (li, g.hex()), f + g, None, "garbage", name, ["oneshot"])
+        # a legacy frame between / behind zstd frames: the cut stays inside the last frame
+        z = cat[li % len(cat)]
+        for k in sorted(set(rng.sample(range(1, len(f)), 12))):
+            add("H%d.zcut%d" % (li, k), z[1] + f[:k], None, "prefix", z[0] + " + " + name, ["oneshot", "dctx"], cap=len(z[2]) + len(x) + 64)
+        for k in sorted(set(rng.sample(range(1, len(z[1])), min(12, len(z[1]) - 1)))):
+            add("H%d.lcut%d" % (li, k), f + z[1][:k], None, "prefix", name + " + " + z[0], ["oneshot", "dctx"], cap=len(z[2]) + len(x) + 64)
+
+    # ---- (a') hand-built frames WITH a checksum (the catalogue's hand-built layouts have none): empty content, empty last block,
+    # RLE only, several blocks; every cut, every bit of the stored checksum, declared-size lies, on every path ----
+    ALLP = ["oneshot", "dctx", "stream:1:0", "stream:7:3", "stream:0:0", "stream:0:1", "stableout:0", "continue"]
+    pyck = []
+    for j, (blocks, fcs_mode, single) in enumerate([
+            ([("raw", b"")], 1, True), ([("raw", b"")], None, False), ([("rle", 7, 0)], 4, False),
+            ([("raw", rng.randbytes(5))], 1, True), ([("rle", 65, 40), ("raw", b"")], 8, False),
+            ([("raw", rng.randbytes(33)), ("rle", 0, 300), ("raw", rng.randbytes(2))], 2, rng.random() < 0.5),
+            ([("rle", 200, 1)], None, False), ([("raw", rng.randbytes(64)), ("raw", rng.randbytes(31))], 4, True)]):
+        f, x = py_frame(rng, blocks, fcs_mode, single, 0, checksum=True)
+        pyck.append(("pyck fcs=%s ss=%d nb=%d n=%d" % (fcs_mode, single, len(blocks), len(x)), f + struct.pack("<I", st.xxh64(x) & 0xFFFFFFFF), x))
+    prc = []
+    for li, (name, f, x) in enumerate(pyck):
+        add("Y%d.full" % li, f, x, "complete", name, ALLP)
+        prc.append(("Y%d.full" % li, "nostrict", None, f))
+        for k in range(1, len(f)):
+            add("Y%d.cut%d" % (li, k), f[:k], None, "prefix", name, ALLP)
+            prc.append(("Y%d.cut%d" % (li, k), "nostrict", None, f[:k]))
+        for bit in range(32):
+            d = bytearray(f)
+            d[len(f) - 4 + bit // 8] ^= 1 << (bit % 8)
+            add("Y%d.ck%d" % (li, bit), bytes(d), x, "ckflip", name, ALLP)
+            prc.append(("Y%d.ck%d" % (li, bit), "nostrict", None, bytes(d)))
+        add("Y%d.nock" % li, f[:-4] + bytes(4), x, "complete", name + " nocheck", ["dctx", "stream:1:0", "stream:0:0", "continue"], flags=codec.dparams_str({"forceIgnoreChecksum": 1}))
+
+    # ---- (b) more decoding entry points on the layout catalogue: every cut point ----
+    XP = ["dctx", "usingDict", "ddict", "stableout:0", "stableout:3", "stream:0:1", "stream:3:1"]
+    ML = codec.dparams_str({"format": 1})
+    sk = lambda payload, v=0: (0x184D2A50 + v).to_bytes(4, "little") + len(payload).to_bytes(4, "little") + payload
+    rsub = set(rng.sample(range(len(cat)), min(len(cat), 5 if ctx.quick else 25)))
+    rcases = []
+    for li, (name, f, x) in enumerate(cat):
+        big = len(f) > 320
+        cuts = range(1, len(f)) if not big else sorted(set(list(range(1, 24)) + rng.sample(range(24, len(f)), 40) + list(range(len(f) - 8, len(f)))))
+        add("X%d.full" % li, f, x, "complete", name, XP)
+        for k in cuts:
+            add("X%d.cut%d" % (li, k), f[:k], None, "prefix", name, XP)
+        g = f[4:]       # the same frame without its magic number, decoded in ZSTD_f_zstd1_magicless
+        MP = ["dctx", "stream:1:0", "stream:0:0", "stream:7:3", "continue", "stableout:0"]
+        add("M%d.full" % li, g, x, "complete", name + " magicless", MP, flags=ML)
+        mcuts = list(range(1, len(g))) if not big else [c - 4 for c in cuts if c > 4]
+        for k in mcuts:
+            add("M%d.cut%d" % (li, k), g[:k], None, "prefix", name + " magicless", MP, flags=ML)
+        if li in rsub:
+            rcases.append(("M%d.full" % li, "nostrict,magicless", None, g))
+            for k in rng.sample(mcuts, min(len(mcuts), 30)):
+                rcases.append(("M%d.cut%d" % (li, k), "nostrict,magicless", None, g[:k]))
+        if big:
+            continue
+        # several frames in one call, only the LAST one cut / followed by stray bytes or by a cut skippable frame
+        lead = cat[(li + 1) % len(cat)]
+        pre = lead[1] if len(lead[1]) <= 320 else f
+        prex = lead[2] if len(lead[1]) <= 320 else x
+        for k in range(1, len(f)):
+            add("T%d.cut%d" % (li, k), pre + f[:k], None, "prefix", "2 frames, last cut: " + name, ["oneshot", "dctx", "usingDict"], cap=len(prex) + len(x) + 64)
+            if li in rsub:
+                rcases.append(("T%d.cut%d" % (li, k), "nostrict", None, pre + f[:k]))
+        for tail in (sk(b"abc")[:4], sk(b"abc")[:7], sk(b"abc")[:9], sk(b"")[:5], b"\x00", b"\x28\xb5", b"\x28\xb5\x2f\xfd", b"\x28\xb5\x2f\xfd\x00"):
+            add("T%d.tail%s" % (li, tail.hex()), f + tail, None, "garbage", name, ["oneshot", "dctx", "usingDict"])
+            add("T%d.sktail%s" % (li, tail.hex()), f + sk(b"xy", 7) + tail, None, "garbage", name + " + skippable", ["oneshot", "dctx"])
+            if li in rsub:
+                rcases.append(("T%d.tail%s" % (li, tail.hex()), "nostrict", None, f + tail))
+    out, errs = cd.impl(lines)
+    if errs:
+        ctx.violation(dict(kind="harness-crash", detail=errs[:2]), what="zv_codec crashed on a damaged frame (round-2 scenarios): %r" % (errs[0],))
+    ndone = 0
+    for key, rest in out.items():
+        cid, pth = key.split("|")
+        data, x, what, layout, fkey = meta[cid]
+        r = codec.parse_ok(rest)
+        rep = dict(layout=layout, damage=what, case=cid, path=pth, frame_hex=data.hex(), result=str(r[:2])[:200])
+        ctx.count((layout.split(" ")[0], what, pth.split(":")[0], "r2"), nontrivial=True)
+        ndone += 1
+        if what == "complete":
+            if r[0] != "OK" or r[1] != x:
+                ctx.violation(rep, what="valid frame (%s) does not decode through %s: %s" % (layout, pth, r[1] if r[0] == "ERR" else "content differs"))
+        elif what in ("prefix", "garbage") and r[0] == "OK":
+            ctx.violation(rep, what="%s accepted by libzstd path %s as a complete successful decode (%s, %d bytes of %s)" % (
+                "a proper prefix" if what == "prefix" else "a frame followed by bytes that are not a frame", pth, cid, len(data), layout))
+        elif what in ("ckflip", "fcslie") and r[0] == "OK":
+            # the known defects live on one side only: legacy size lies on the streaming paths, v0.7 checksums on the one-shot paths
+            streaming = pth.startswith("stream") or pth.startswith("stableout")
+            if (fkey == KEY_LEGACY_FCS and not streaming) or (fkey == KEY_V07_CK and streaming):
+                fkey = None
+            keyed(rep, key=fkey, what="%s frame with a %s accepted by libzstd path %s (%s of %s)" % (
+                "legacy" if cid[0] == "G" else "zstd", "damaged stored checksum" if what == "ckflip" else "wrong declared content size", pth, cid, layout))
+        elif what == "flip" and r[0] == "OK" and r[1] != x:
+            if fkey == KEY_V07_CK and (pth.startswith("stream") or pth.startswith("stableout")):
+                fkey = None
+            keyed(rep, key=fkey, what="checksummed legacy frame with damaged content accepted by libzstd path %s with altered content (%s of %s)" % (pth, cid, layout))
+    rcases += prc
+    if rcases:
+        mres = cd.model(rcases)
+        for cid, m in mres.items():
+            data, x, what, layout, fkey = meta[cid]
+            rep = dict(layout=layout, damage=what, case=cid, decoder="R", frame_hex=data.hex(), result=str(m[:1] + m[2:])[:200])
+            if what == "complete" and (m[0] != "OK" or m[1] != x):
+                ctx.violation(rep, what="reference decoder R rejects / mis-decodes a catalogue frame (%s)" % layout, no_input=True)
+            if what in ("prefix", "garbage") and m[0] == "OK":
+                ctx.violation(rep, what="reference decoder R accepts a %s (%s): contradicts C09_last_frame_truncated_rejected / C09_trailing_bytes_rejected" % (what, cid), no_input=True)
+            if what == "ckflip" and m[0] == "OK":
+                ctx.violation(rep, what="reference decoder R accepts a frame with a damaged stored checksum (%s)" % cid, no_input=True)
+            ctx.cov["traces_validated_against_impl"] += 1
+    ctx.notes["round2_decode_cases"] = ndone
+
+    # ---- (c) decoder histories: a session abandoned mid-frame then reset, size hints on prefixes, wrong sizes ----
+    eexe = core.build_harness("c09_enc", ["c09_enc.c"], variant="o1", extra_flags=["-w"])
+    hl, hm = [], {}
+    ckl = [c for c in cat if (c[1][4] >> 2) & 1] or cat
+    for i in range(150 if ctx.quick else 1500):
+        a = rng.choice(cat)
+        b = rng.choice(ckl if rng.random() < 0.8 else cat)
+        cut = rng.randrange(0, len(a[1]) + 1)
+        hl.append("R r%d - %s %d %s %d" % (i, a[1].hex(), cut, b[1].hex(), len(a[2]) + len(b[2]) + 64))
+        hm["r%d" % i] = ("R", b[2], (a[0], cut, b[0]))
+        if (b[1][4] >> 2) & 1:
+            d = bytearray(b[1])
+            d[-1 - rng.randrange(4)] ^= 1 << rng.randrange(8)
+            hl.append("R rd%d - %s %d %s %d" % (i, a[1].hex(), cut, bytes(d).hex(), len(a[2]) + len(b[2]) + 64))
+            hm["rd%d" % i] = ("Rbad", None, (a[0], cut, b[0]))
+    for li, (name, f, x) in enumerate(cat):
+        for k in (range(0, len(f) + 1) if len(f) <= 320 else [0, 1, 4, 5, 6, 9, len(f) - 5, len(f) - 4, len(f) - 1, len(f)]):
+            hl.append("N n%d.%d - %s %d" % (li, k, f[:k].hex() or "-", len(x) + 64))
+            hm["n%d.%d" % (li, k)] = ("N", (k, len(f)), (name,))
+        hl.append("W w%d %s %d" % (li, f.hex(), len(x) + 64))
+        hm["w%d" % li] = ("W", None, (name,))
+    ho, herrs = codec._run_chunks(eexe, hl, core.NCPU, 600)
+    if herrs:
+        ctx.violation(dict(kind="harness-crash", detail=herrs[:2]), what="c09_enc crashed on a decoder history: %r" % (herrs[0],))
+    for k, rest in ho.items():
+        kind, info, desc = hm[k]
+        t = rest.split(" ")
+        rep = dict(kind="decoder-history", case=k, desc=desc, result=rest[:200])
+        ctx.count(("history", kind), nontrivial=True)
+        if kind == "R" and (t[0] != "OK" or codec.unhx(t[1]) != info):
+            ctx.violation(rep, what="a valid frame is not decoded correctly after a session abandoned mid-frame and ZSTD_DCtx_reset(session_only): %s" % rest[:80])
+        elif kind == "Rbad" and t[0] == "OK":
+            ctx.violation(rep, what="frame with a damaged stored checksum accepted after a session abandoned mid-frame and ZSTD_DCtx_reset(session_only)")
+        elif kind == "N":
+            cutk, fl = info
+            if t[0] != "END":
+                ctx.violation(rep, what="buffer-less decoding of a prefix of a valid frame failed before the input ran out: %s" % rest[:80])
+            elif cutk < fl and int(t[1]) == 0:
+                ctx.violation(rep, what="ZSTD_nextSrcSizeToDecompress is 0 (frame complete) after only %d of %d bytes of a frame" % (cutk, fl))
+            elif cutk == fl and int(t[1]) != 0:
+                ctx.violation(rep, what="ZSTD_nextSrcSizeToDecompress is not 0 after a complete frame")
+        elif kind == "W" and t[0] != "OK":
+            ctx.violation(rep, what="ZSTD_decompressContinue accepted a source size other than the one it asked for: %s" % rest[:80])
+
+    # ---- (d) compression side: a pledged source size under every way of feeding and ending the frame ----
+    BLK = 131072
+    pl, pmeta = [], {}
+    sizes = [0, 1, 5000, 140000] if ctx.quick else [0, 1, 100, 5000, 131071, 131072, 140000, 300000]
+    inputs = {n: codec.gen_input(rng, rng.choice(["text", "random"]), n) for n in sizes}
+    hexes = {n: codec.hx(x) for n, x in inputs.items()}
+
+    def chunkings(n):
+        c = ["-", "%d:0" % n, "%d:2" % n, "%d:1" % n, "%d:0,%d:0" % (n // 2, n - n // 2), "%d:0,%d:1" % (n // 2, n - n // 2),
+             "%d:1,%d:2" % (n // 2, n - n // 2), "1:0,%d:2" % max(0, n - 1), "0:0,%d:0" % n, "%d:0,0:0" % n]
+        if n > BLK:
+            c += ["%d:0,%d:0" % (BLK - 1, n - BLK + 1), "%d:0,1:0,%d:2" % (BLK - 1, n - BLK)]
+        return c
+
+    def lies(n):
+        return sorted({n, n + 1, max(0, n - 1), 0, n + 1000, 2 * n + 3, 100})
+
+    pid = 0
+    for n in sizes:
+        for params in ({}, {"stableIn": 1}, {"nbWorkers": 1}, {"nbWorkers": 1, "stableIn": 1}, {"contentSize": 0, "stableIn": 1}, {"checksum": 1, "stableIn": 1}):
+            if ctx.quick and n > 5000 and params not in ({}, {"stableIn": 1}):
+                continue
+            for pledge in lies(n):
+                for ch in chunkings(n):
+                    if ctx.quick and rng.random() < (0.5 if n <= 5000 else 0.7):
+                        continue
+                    pid += 1
+                    pl.append("P p%d s2 %s %d %s %s" % (pid, codec.params_str(params), pledge, ch, hexes[n]))
+                    pmeta["p%d" % pid] = ("s2", params, pledge, ch, n)
+        for var, kmax in (("old", 4), ("bl", 3)):
+            for k in range(kmax):
+                for pledge in lies(n):
+                    for ch in chunkings(n):
+                        if (ctx.quick and rng.random() < 0.6) or (n > 5000 and rng.random() < 0.5):
+                            continue
+                        pid += 1
+                        pl.append("P p%d %s:%d - %d %s %s" % (pid, var, k, pledge, ch, hexes[n]))
+                        pmeta["p%d" % pid] = (var + str(k), {}, pledge, ch, n)
+        for pledge in lies(n)[:3]:
+            pid += 1
+            pl.append("P p%d c2 - %d - %s" % (pid, pledge, hexes[n]))
+            pmeta["p%d" % pid] = ("c2", {}, pledge, "-", n)
+    po, perrs = codec._run_chunks(eexe, pl, core.NCPU, 900)
+    if perrs:
+        ctx.violation(dict(kind="harness-crash", detail=perrs[:2]), what="c09_enc crashed on a compression history: %r" % (perrs[0],))
+    # the same histories through the extracted model of the pledge bookkeeping (coq/Codec/C09Pledge.v): fixed=1 is the behaviour the
+    # property asks for (theorem C09_pledge_enforced), fixed=0 the tree as it stands (theorem C09_pledge_as_is)
+    mexe = core.build_extracted("c09model", "Extract/Extract_C09.v", "c09_driver.ml")
+    ml_ = []
+    for k, (var, params, pledge, ch, n) in pmeta.items():
+        if not (var == "s2" or var.startswith("old")):
+            continue
+        chs = [] if ch == "-" else [tuple(int(v) for v in c.split(":")) for c in ch.split(",")]
+        hist, off = [], 0
+        for cn, cdir in chs:
+            e = min(n - off, cn)
+            off += e
+            if var == "s2":
+                hist.append((e, cdir))
+                if cdir == 2:
+                    break
+            else:
+                hist.append((e, 0))
+                if cdir == 1:
+                    hist.append((0, 1))
+        if not hist or hist[-1][1] != 2:
+            hist.append((0, 2))
+        mp = "-" if (var in ("old0", "old1") and pledge == 0) else str(pledge)
+        hs = ",".join("%d:%d" % c for c in hist)
+        for fx in (0, 1):
+            ml_.append("%s.%d %d %d %s %s" % (k, fx, fx, 1 if params.get("stableIn") else 0, mp, hs))
+    mo, merrs = codec._run_chunks(mexe, ml_, core.NCPU, 600)
+    if merrs:
+        raise RuntimeError("c09 model driver crashed: %r" % (merrs[:2],))
+    dl = []
+    for k, rest in po.items():
+        var, params, pledge, ch, n = pmeta[k]
+        t = rest.split(" ")
+        chs = [] if ch == "-" else [tuple(int(v) for v in c.split(":")) for c in ch.split(",")]
+        supplied = min(n, sum(c[0] for c in chs))
+        if var == "c2":
+            supplied = n
+        ok = t[0] == "OK"
+        # is the pledge in force?  zstd.h (ZSTD_CCtx_setPledgedSrcSize, note 3): overridden when the end directive comes with the very
+        # first call; the legacy initialisers document 0 as "unknown"
+        first_dir = chs[0][1] if chs else 2
+        deferred = False
+        if var == "s2":
+            in_force = first_dir != 2
+            if params.get("stableIn") and in_force:
+                acc, init_dir = 0, 2
+                for cn, cdir in chs:
+                    acc = min(n, acc + cn)
+                    if cdir != 0 or acc >= BLK:
+                        init_dir = cdir
+                        break
+                deferred = init_dir == 2     # every earlier e_continue call was "pretend-consumed": the frame starts under ZSTD_e_end
+        elif var.startswith("old"):
+            in_force = bool(chs) and not (pledge == 0 and var in ("old0", "old1"))
+        elif var.startswith("bl"):
+            in_force = not (pledge == 0 and var == "bl1")
+        else:
+            in_force = False
+        rep = dict(kind="pledge-history", variant=var, params=params, pledged=pledge, supplied=supplied, calls=ch, input_size=n,
+                   result=" ".join(t[:1] + t[2:])[:300] if ok else rest[:300])
+        ctx.count(("pledge2", var, pledge == supplied, in_force, deferred), nontrivial=True)
+        if ok and in_force and pledge != supplied:
+            keyed(rep, key=KEY_STABLEIN if deferred else None,
+                  what="compression (%s%s) with a pledged size of %d reported success although %d bytes were supplied (calls %s)" % (
+                              var, " " + str(params) if params else "", pledge, supplied, ch))
+        elif not ok and (pledge == supplied or not in_force):
+            ctx.violation(rep, what="compression (%s%s) failed (%s) although the pledge %s (pledged %d, supplied %d, calls %s)" % (
+                var, " " + str(params) if params else "", t[1], "was met" if pledge == supplied else "is documented as not in force", pledge, supplied, ch))
+        if k + ".1" in mo:
+            m1, m0 = mo[k + ".1"].split(" "), mo[k + ".0"].split(" ")
+            ctx.cov["traces_validated_against_impl"] += 1
+            expect_ok = not (in_force and pledge != supplied)
+            if (m1[1] == "ok") != expect_ok:
+                ctx.violation(dict(rep, model=m1), what="the pledge model (fixed=1) disagrees with the property's statement on history %s (pledged %d, supplied %d)" % (ch, pledge, supplied), no_input=True)
+            if ok != (m0[1] == "ok") and ok != (m1[1] == "ok"):
+                ctx.violation(dict(rep, model_as_is=m0, model_fixed=m1), what="libzstd's verdict (%s) on pledge history %s (%s, pledged %d, supplied %d) matches neither the model of the tree as it stands nor the repaired one" % (
+                    "success" if ok else t[1], ch, var, pledge, supplied))
+            if not ok and len(t) > 2 and t[2] != "-":
+                last = [c for c in t[2].split(";") if c][-1]
+                if last[0] in "cf" and "K" not in m0[0] and "K" not in m1[0]:
+                    ctx.violation(dict(rep, model_as_is=m0), what="libzstd refused a %s call of pledge history %s although the pledge could still be met (the model never reports `over`)" % (
+                        "continue" if last[0] == "c" else "flush", ch))
+        if ok:
+            dl.append("D %s oneshot - %s %s %d" % (k, codec.hx(b"the quick brown fox jumps over the lazy dog") if var in ("old3", "bl2") else "-", t[1], supplied + 64))
+            if var in ("old3", "bl2"):
+                dl[-1] = dl[-1].replace(" oneshot ", " usingDict ")
+    do, derrs = cd.impl(dl)
+    for k, rest in do.items():
+        var, params, pledge, ch, n = pmeta[k]
+        chs = [] if ch == "-" else [tuple(int(v) for v in c.split(":")) for c in ch.split(",")]
+        supplied = n if var == "c2" else min(n, sum(c[0] for c in chs))
+        r = codec.parse_ok(rest)
+        if r[0] != "OK" or r[1] != inputs[n][:supplied]:
+            ctx.violation(dict(kind="pledge-history", variant=var, params=params, pledged=pledge, supplied=supplied, calls=ch, result=str(r[:2])[:200]),
+                          what="a frame reported as successfully compressed (%s, pledged %d, supplied %d) does not decode to the supplied bytes: %s" % (
+                              var, pledge, supplied, r[1] if r[0] == "ERR" else "content differs"))
+    ctx.notes["round2_pledge_histories"] = len(po)
+    if repeats:
+        ctx.notes["round2_cases_per_finding"] = repeats
+
+
 def run(ctx):
     ctx.cov["rule"] = ("layout catalogue = hand-built raw/RLE frames covering every header form (FCS 0/1/2/4/8 bytes incl. the +256 form, single "
                        "segment, dictID widths, empty last block) + real compressor output (compressed blocks, checksum, multi-block); for each "
@@ -263,6 +709,7 @@ def run(ctx):
         elif mod[0] != "OK" or mod[1] != got[0]:
             ctx.violation(dict(kind="xxh-model", seed=sd, chunks=[c.hex() for c in ch][:50], impl=got[0], model=" ".join(mod)),
                           what="the XXH64 streaming model disagrees with XXH64_update/digest of the current tree", no_input=True)
+    round2(ctx, random.Random(ctx.seed * 7919 + 9), cd, cat)
     ctx.notes["layouts"] = len(cat)
     ctx.notes["complete_frames_decoded"] = nfull
     ctx.sample(dict(layout=cat[0][0], frame_hex=cat[0][1].hex(), cut_points="1..%d" % (len(cat[0][1]) - 1)))
